@@ -390,6 +390,64 @@ def gate_implies(tests, d, cls, has_role):
     return phi_ok, role_ok, [("" if pol else "not ") + src(e) for e, pol in exprs]
 
 
+def check_applied_once(ctx):
+    """C10.X: for one request the correction of a pair is emitted by exactly one mechanism: the whole-array loop (enabled by
+    wait_all in the keep builders), the per-pair post routine, or the per-pair move-to-memory loop.  sdk_epr_keep is executed
+    abstractly for every valuation of (post routine given, sequential, one communication qubit, role, reset flag)."""
+    import itertools
+    repo = ctx.repo
+    b = repo.get_class(B, "Builder")
+    fn = b.methods.get("sdk_epr_keep")
+    if fn is None:
+        raise AnalysisError("Builder.sdk_epr_keep not found")
+    ctx.fn("Builder.sdk_epr_keep")
+    RECV, CREATE = G.Sym("EPRRole.RECV"), G.Sym("EPRRole.CREATE")
+    routine, hw = G.Sym("routine"), G.Sym("hardware_config")
+    keepers = {}
+    for name in ("_build_cmds_epr_recv_keep", "_build_cmds_epr_create_keep"):
+        f2 = b.methods.get(name)
+        if f2 is not None and "wait_all" in A.param_names(f2):
+            keepers[name] = A.param_names(f2).index("wait_all") - 1
+    bad = []
+    n_val = 0
+    for post, seq, comm, role, reset in itertools.product((None, routine), (True, False), (1, 2, None), (RECV, CREATE), (True, False)):
+        env = {"params.post_routine": post, "params.sequential": seq, "params.number": 2, "params.expect_phi_plus": True,
+               "self._hardware_config": (hw if comm is not None else None), "self._hardware_config.comm_qubit_count": comm if comm is not None else 2,
+               "isinstance(self._hardware_config,NVHardwareConfig)": comm == 1,
+               "role": role, "reset_results_array": reset, "EPRRole.RECV": RECV, "EPRRole.CREATE": CREATE}
+        seen = {"wait_all": [], "post": 0, "move": 0}
+
+        def on_call(c, env_):
+            nm = c.func.attr if A.is_self_attr(c.func) else None
+            if nm in keepers:
+                a = A.get_arg(c, keepers[nm], "wait_all")
+                try:
+                    seen["wait_all"].append(G.peval(a, env_) if a is not None else G.UNKNOWN)
+                except Unknown:
+                    seen["wait_all"].append(G.UNKNOWN)
+            elif nm == "_build_cmds_post_epr":
+                seen["post"] += 1
+            elif nm == "_build_cmds_wait_move_epr_to_mem":
+                seen["move"] += 1
+
+        try:
+            G.run_block(fn.body, env, on_call)
+        except Unknown as ex_:
+            ctx.error("C10.X", f"sdk_epr_keep: a condition cannot be evaluated ({ex_})")
+            return
+        n_val += 1
+        if len(seen["wait_all"]) != 1 or isinstance(seen["wait_all"][0], G.Sym):
+            ctx.error("C10.X", f"sdk_epr_keep: the wait_all argument of the keep builder could not be evaluated for {('post routine' if post else 'no post routine')}, comm={comm}")
+            return
+        mechanisms = int(bool(seen["wait_all"][0])) + seen["post"] + seen["move"]
+        if mechanisms != 1:
+            bad.append({"post_routine": post is not None, "sequential": seq, "comm_qubits": comm, "role": str(role), "wait_all": bool(seen["wait_all"][0]), "post_epr": seen["post"], "move_to_mem": seen["move"]})
+    ctx.check("C10.X", "sdk_epr_keep:one-correction-mechanism-per-request", not bad,
+              f"for {bad[:2]} the request is built with {'several' if bad and (int(bad[0]['wait_all']) + bad[0]['post_epr'] + bad[0]['move_to_mem']) > 1 else 'no'} correction mechanism(s) "
+              "(whole-array loop when wait_all, per-pair post routine, per-pair move to memory): a pair's Pauli correction is applied twice (and cancels) or not at all",
+              b.loc(fn), sample={"valuations": n_val, "violating": bad[:3]})
+
+
 def check_gating(ctx):
     repo = ctx.repo
     b = repo.get_class(B, "Builder")
@@ -443,15 +501,24 @@ def check_gating(ctx):
 
 
 def run(ctx):
+    check_applied_once(ctx)
     check_correction_table(ctx)
     check_postprocessing(ctx)
     check_targets(ctx)
     check_gating(ctx)
+    # 0 is an ordinary id / value / address: nothing int-valued may be tested by truthiness (nqsa/truth.py)
+    from .. import truth
+    truth.check(ctx, "C10.Z", ['netqasm.sdk.builder', 'netqasm.sdk.build_epr'])
 
 
 BF = "netqasm/sdk/builder.py"
 BEF = "netqasm/sdk/build_epr.py"
 SEEDS = [
+    dict(id="c10-post-routine-keeps-wait-all", file=BF, expect="C10.X", construct="one-correction-mechanism",
+         old="        if params.post_routine is not None or single_comm_qubit:\n            wait_all = False", new="        if (params.post_routine is not None and params.sequential) or single_comm_qubit:\n            wait_all = False"),
+    dict(id="c10-move-to-mem-also-with-post-routine", file=BF, expect="C10.X", construct="one-correction-mechanism",
+         old="        if params.post_routine is None and single_comm_qubit:\n            self._build_cmds_wait_move_epr_to_mem(", new="        if single_comm_qubit:\n            self._build_cmds_wait_move_epr_to_mem("),
+
     dict(id="c10-helper-default-role-at-shared-site", expect="C10.E", construct="_build_cmds_wait_move_epr_to_mem", edits=[
         (BF, "    def _build_cmds_wait_move_epr_to_mem(", "    def _needs_bell_corrections(\n        self, params: EntRequestParams, role: EPRRole = EPRRole.RECV\n    ) -> bool:\n        return params.expect_phi_plus and role == EPRRole.RECV\n\n    def _build_cmds_wait_move_epr_to_mem("),
         (BF, "            if params.expect_phi_plus and role == EPRRole.RECV:\n                bell_state = self._get_raw_bell_state(", "            if self._needs_bell_corrections(params, role):\n                bell_state = self._get_raw_bell_state("),
